@@ -59,6 +59,8 @@ fn profile_for(prop: &str, variant: u64) -> Profile {
             p.w_enter = 14;
             p.inject_between_bytes = true;
             p.handler_level = 2;
+            // every third session: application texts with any character at all (this workload's clauses compare bytes)
+            p.raw_text = variant % 3 == 0;
         }
         "C15" => {
             p.help_lines = true;
